@@ -74,6 +74,11 @@ COMPONENTS = {
 }
 
 
+def L2MOD_BUILD(tier, seed):
+    npk, per, maxt = CORPUS[tier]
+    return dict(seed=seed + 7, name="l2mod", genmode="modifier", kind="modifier", corpus=[max(3, npk // 2), per, maxt], modemit=True)
+
+
 def load_known():
     p = os.path.join(VERIF, "known_findings.json")
     if not os.path.exists(p):
@@ -177,12 +182,12 @@ def plant_stale_outputs(mod, pkgs):
     return n
 
 
-def build_l2(tmp, race, tier, seed, name="l2", genmode="base", kind="mixed", corpus=None, plain=False, stale=False):
+def build_l2(tmp, race, tier, seed, name="l2", genmode="base", kind="mixed", corpus=None, plain=False, stale=False, modemit=False):
     """Generate a corpus, run the cff tool built from /repo on it, compile the harness."""
     cff = build_cff(tmp)
     mod = copy_module(tmp, name)
     npk, per, maxt = corpus or CORPUS[tier]
-    r = sh(["go", "run", "./cmd/progen", "-out", mod, "-seed", str(seed), "-pkgs", str(npk), "-per", str(per), "-maxtasks", str(maxt), "-kind", kind] + (["-plainnames"] if plain else []), cwd=mod)
+    r = sh(["go", "run", "./cmd/progen", "-out", mod, "-seed", str(seed), "-pkgs", str(npk), "-per", str(per), "-maxtasks", str(maxt), "-kind", kind] + (["-plainnames"] if plain else []) + (["-modemit"] if modemit else []), cwd=mod)
     if r.returncode != 0:
         raise Infra("progen failed:\n" + r.stdout[-3000:])
     pkgs = json.load(open(os.path.join(mod, "corpus", "packages.json")))
@@ -362,12 +367,20 @@ def _check(prop, tier, seed, tmp, t0):
                            message="the corpus builds when user variables have neutral names, but not when they are named like identifiers the generated code introduces",
                            **{"class": "generated-identifier-captures-user-name"}), open(path, "w"), indent=1)
             name_viol.append(("generated-identifier-captures-user-name", "programs whose variables are called like generated identifiers (sched, emitter, tasks, v1, ...) are accepted by cff but the output does not compile; the same programs with neutral names do: " + str(e)[-500:].replace("\n", " | "), path))
+    if prop == "C18":
+        # the emitter protocol is also promised for modifier-mode output (flows of the modifier subset,
+        # with cff.WithEmitter / cff.InstrumentFlow / cff.Instrument): a second corpus, generated in that mode
+        npk, per, maxt = CORPUS[tier]
+        binaries["l2mod"] = build_l2(tmp, race, tier, **L2MOD_BUILD(tier, seed))[0]
+        COMPONENTS.setdefault("l2mod", COMPONENTS["l2"])
     secs = SECS[tier]
     replaydir = os.path.join(OUT, "replays")
     os.makedirs(replaydir, exist_ok=True)
     jobs, meta = [], []
     for i in range(NPROC):
         eng = engines[i % len(engines)]
+        if "l2mod" in binaries and i % 4 == 3:
+            eng = "l2mod"
         pop = prop
         if eng == "l2" and prop == "C03" and i == 5:
             pop = "C03scale"
@@ -394,6 +407,8 @@ def _check(prop, tier, seed, tmp, t0):
                 "-sim.replaydir", replaydir, "-sim.beginlog", os.path.join(tmp, "begin_%d" % i)]
         if report:
             argv += ["-sim.report", report]
+        if eng == "l2mod":
+            argv += ["-sim.build", json.dumps(L2MOD_BUILD(tier, seed))]
         jobs.append((argv, env, os.path.join(tmp, "log_%d" % i)))
         meta.append(eng)
     rcs = run_procs(jobs, secs * 4 + 900)
@@ -780,7 +795,11 @@ def cmd_replay(path):
             binary = build_l1(tmp, race)
         else:
             c = rp.get("corpus") or {}
-            binary, _, _ = build_l2(tmp, race, c.get("tier", "quick"), int(c.get("seed", 1)))
+            if c.get("build"):
+                kw = dict(c["build"])
+                binary, _, _ = build_l2(tmp, race, c.get("tier", "quick"), **kw)
+            else:
+                binary, _, _ = build_l2(tmp, race, c.get("tier", "quick"), int(c.get("seed", 1)))
         rc, out = run_replay(binary, path, race, verbose=True)
         log(out[-20000:])
         if ("REPRODUCED property=" in out and "NOT-REPRODUCED" not in out) or rc != 0:
